@@ -13,6 +13,7 @@ import (
 	"errors"
 	"fmt"
 	"math/big"
+	"os"
 	"sort"
 	"strings"
 	"testing"
@@ -171,8 +172,17 @@ func newTwin(t *testing.T) *twin {
 			_, err := ms.Delegate(c.Ctx(), stakingtypes.NewMsgDelegate(tw.actors[0].GetCosmosAddress().String(), bonded[i].op, sdk.NewCoin(tw.bond, sdkmath.NewIntFromBigInt(e18(amt)))))
 			require.NoError(t, err)
 		}
+		// every account that can be a caller starts with two delegations (so that undelegate / redelegate / withdraw have
+		// something to work on from the first step), one of them small enough to earn less than the withdrawal minimum
+		for i, a := range tw.tracked[1:] {
+			for j, amt := range []*big.Int{e18(int64(2 + i)), big.NewInt(int64(1000 * (i + 1)))} {
+				_, err := ms.Delegate(c.Ctx(), stakingtypes.NewMsgDelegate(a.GetCosmosAddress().String(), bonded[(i+2*j)%len(bonded)].op, sdk.NewCoin(tw.bond, sdkmath.NewIntFromBigInt(amt))))
+				require.NoError(t, err)
+			}
+		}
 		c.RunBlock(nil)
 	})
+	tw.accrue()
 	return tw
 }
 
@@ -286,6 +296,9 @@ func (tw *twin) projection(c *Chain) (string, map[string]string) {
 	// everything x/staking, x/distribution and x/bank keep (all delegators, all validators, pools, reward periods and
 	// their reference counts, supply), byte for byte; staking's HistoricalInfo (0x50: block headers) is chain-specific
 	for _, name := range []string{"staking", "distribution", "bank"} {
+		if os.Getenv("VERIF_C11_NO_STORE_DIGEST") != "" { // diagnosis only: look for the consequences the queries can see
+			break
+		}
 		h := sha256.New()
 		it := ctx.MultiStore().GetKVStore(c.App.GetKVStoreKey()[name]).Iterator(nil, nil)
 		for ; it.Valid(); it.Next() {
